@@ -126,6 +126,8 @@ def gen(s: Choices, cls, cfg):
         sc["cpu"] = s.weighted([(4, 4), (2, 1), (1, 2), (1, 16), (1, 64)])
         sc["elems"] = s.weighted([(3, None), (2, 1), (2, 2), (2, 4), (1, 8), (1, 16)])
         sc["ddof"] = s.weighted([(3, 1), (2, 0)])
+        sc["container"] = s.weighted([(6, "ndarray"), (2, "strided"), (1, "pandas"), (1, "readonly")])
+        sc["inf"] = arb and is_float and func in ("nansum", "nanmin", "nanmax", "nanmean", "count") and s.chance(1, 3)
     elif kind == "2d":
         r, c = 1 + s.draw(6), 1 + s.draw(6)
         is_float = dtype.startswith("float")
@@ -287,6 +289,18 @@ def execute(sc, sched: Choices, cls, cfg):
     # ---- build the array ----
     if kind == "1d":
         arr = _arr(sc["idx"], dtype, sc["arb"])
+        if sc.get("inf"):
+            arr = arr.copy()
+            arr[np.array(sc["idx"]) == 4] = np.inf
+            arr[np.array(sc["idx"]) == 6] = -np.inf
+        cont = sc.get("container", "ndarray")
+        if cont == "strided":
+            big = np.zeros(2 * arr.size + 1, dtype=arr.dtype)
+            big[1::2][: arr.size] = arr
+            arr = big[1::2][: arr.size]
+        elif cont == "readonly":
+            arr = arr.copy()
+            arr.setflags(write=False)
         axis = None
     elif kind == "2d":
         r, c = sc["shape"]
@@ -315,9 +329,16 @@ def execute(sc, sched: Choices, cls, cfg):
 
     seams.set_knobs(nanops_elems=sc["elems"])
     ctx = executor.SimContext(sched=sched, workers=sc["workers"], cpu_count=sc["cpu"], fault=sc["fault"], monitor=kind != "real")
-    before = arr.copy() if kind != "real" else None
+    before = np.array(arr, copy=True) if kind != "real" else None
+    arg = arr
+    if kind == "1d" and sc.get("container") == "list":
+        arg = arr.tolist()
+    elif kind == "1d" and sc.get("container") == "pandas":
+        import pandas as pd
+
+        arg = pd.Series(arr, index=np.arange(arr.size) * 3 + 7, copy=False)
     with executor.use_context(ctx):
-        got = _outcome(lambda: _call(func, arr, sc["n_threads"], ddof, axis))
+        got = _outcome(lambda: _call(func, arg, sc["n_threads"], ddof, axis))
     fired = ctx.fault_fired
     features["fault"] = fired or "none"
     if before is not None and not np.array_equal(before, arr, equal_nan=True):
